@@ -657,3 +657,44 @@ V("C09", "reuseinfo-gets-len", "U", "", R + "__init__.py", "    def __bool__(sel
 V("C08", "style-overrides-finder", "U", "", R + "comment.py", '    SHORTHAND = "c"\n\n    MULTI_LINE = MultiLineSegments("/*", "*", "*/")\n', '    SHORTHAND = "c"\n\n    @classmethod\n    def comment_at_first_character(cls, text: str) -> str:\n        return super().comment_at_first_character(text)\n\n    MULTI_LINE = MultiLineSegments("/*", "*", "*/")\n')
 V("C02", "import-time-monkeypatch", "U", "", EXP, "_LOGGER = logging.getLogger(__name__)\n", "_LOGGER = logging.getLogger(__name__)\nre.DOTALL_ = re.DOTALL\n")
 
+
+# ----------------------------------------------------------------- round 12: one-token mutants that survived the suite
+# (mutsweep.py) and the repairs that came out of the round-11 observations
+CFP = R + "covered_files.py"
+GLP = R + "global_licensing.py"
+# names / paths with line breaks: `$` also matches before one final "\n", `.` does not match "\n"
+V("C03", "file-patterns-prefix-match-again", "F", "R1", CFP, "            if pattern.fullmatch(name) and (\n", "            if pattern.match(name) and (\n")
+V("C03", "license-pattern-dot-without-dotall", "F", "R1", CFP, 're.compile(r".*\\.license$", re.DOTALL)', 're.compile(r".*\\.license$")')
+V("C03", "dir-pattern-end-of-string-anchor", "S", "", CFP, 're.compile(r"^\\.git$"),\n    re.compile(r"^\\.hg$")', 're.compile(r"^\\.git\\Z"),\n    re.compile(r"^\\.hg$")')
+V("C03", "dir-patterns-search", "F", "R1", CFP, "            if pattern.fullmatch(name):\n", "            if pattern.search(name):\n")
+V("C05", "glob-prefix-match-again", "F", "R2", GLP, "return bool(self._paths_regex.fullmatch(path))", "return bool(self._paths_regex.match(path))")
+V("C05", "globstar-without-dotall", "F", "R2", GLP, '"|".join(translate(path) for path in self.paths), re.DOTALL\n', '"|".join(translate(path) for path in self.paths)\n')
+V("C06", "licenseref-dollar-anchor", "F", "R5", EXP, 're.compile(r"LicenseRef-[a-zA-Z0-9-.]+\\Z")', 're.compile(r"LicenseRef-[a-zA-Z0-9-.]+$")')
+# non-regular files are not covered files
+V("C03", "fifo-is-a-covered-file-again", "F", "R2", CFP, "    else:\n        # Neither a regular file nor a directory (a FIFO, a socket, a device).\n        _LOGGER.debug(\"skipping '%s' because it is not a regular file\", path)\n        return True\n", "")
+# VCS queries
+V("C03", "git-no-empty-directory-back", "F", "R5", R + "vcs.py", '            "--directory",\n            # Separate', '            "--directory",\n            "--no-empty-directory",\n            # Separate')
+V("C03", "vcs-command-in-process-cwd", "F", "R5", R + "_util.py", "        cwd=str(cwd),\n", "")
+V("C03", "jujutsu-prefix-test-inverted", "F", "R5", R + "vcs.py", "if tracked.parts[: len(path.parts)] == path.parts:", "if tracked.parts[: len(path.parts)] != path.parts:")
+V("C03", "pijul-membership-inverted", "F", "R5", R + "vcs.py", "return path not in self._all_tracked_files", "return path in self._all_tracked_files")
+# first-line declarations
+V("C08", "shebang-lines-by-splitlines", "F", "R3", HDP, "    for line in StringIO(text):\n", "    for line in text.splitlines(keepends=True):\n")
+V("C08", "shebang-lines-by-lookbehind-split", "S", "", HDP, "    for line in StringIO(text):\n", "    for line in re.split(r\"(?<=\\n)\", text):\n")
+V("C08", "shebang-table-left-after-first-entry", "F", "R3", HDP, "                before, after = _extract_shebang(shebang, after)\n            else:\n                continue\n            break\n", "                before, after = _extract_shebang(shebang, after)\n            else:\n                pass\n            break\n")
+V("C08", "shebang-loop-breaks-in-branches", "S", "", HDP, "                before, after = _extract_shebang(shebang, after)\n            else:\n                continue\n            break\n", "                before, after = _extract_shebang(shebang, after)\n                break\n")
+# --merge-copyrights on a file without header
+V("C10", "merge-only-with-existing-header", "F", "R10", HDP, "    elif merge_copyrights:\n        # Write the requested lines the way a later run would merge them.\n        reuse_info = reuse_info.copy(\n            copyright_lines=merge_copyright_lines(reuse_info.copyright_lines)\n        )\n", "")
+V("C09", "merged-request-without-header", "S", "", HDP, "    elif merge_copyrights:\n        # Write the requested lines the way a later run would merge them.\n", "    elif merge_copyrights:\n        # the request is written in merged form\n")
+# checks without consequence, swallowed configuration errors
+V("C16", "annotations-type-check-without-raise", "F", "R2", GLP, "            raise GlobalLicensingParseTypeError(\n                _(\n                    \"{attr_name} must be a {type_name} (got {value} that is a\"\n                    \" {value_class}).\"\n                ).format(\n                    attr_name=repr(\"annotations\"),\n                    type_name=\"list of tables\",\n                    value=repr(annotation_dicts),\n                    value_class=repr(annotation_dicts.__class__),\n                ),\n                source=source,\n            )\n", "            pass\n")
+V("C16", "conflict-error-swallowed", "F", "H", R + "cli/common.py", "        except (GlobalLicensingConflictError, OSError) as error:\n            raise click.UsageError(str(error)) from error\n", "        except (GlobalLicensingConflictError, OSError) as error:\n            pass\n")
+# type tables
+V("C07", "extension-keys-not-lowered", "F", "R15", R + "comment.py", "    key.lower(): value for key, value in EXTENSION_COMMENT_STYLE_MAP.items()", "    key: value for key, value in EXTENSION_COMMENT_STYLE_MAP.items()")
+V("C07", "suffix-not-lowered", "F", "R15", R + "comment.py", "EXTENSION_COMMENT_STYLE_MAP_LOWERCASE.get(path.suffix.lower()),", "EXTENSION_COMMENT_STYLE_MAP_LOWERCASE.get(path.suffix),")
+V("C10", "two-line-value-accepted", "F", "R9", CAP, "            if len(value.splitlines()) > 1:\n", "            if len(value.splitlines()) > 2:\n")
+V("C10", "two-line-value-refused-ge", "S", "", CAP, "            if len(value.splitlines()) > 1:\n", "            if len(value.splitlines()) >= 2:\n")
+# equivalent mutants the first versions of two rules flagged (frozen fragments)
+V("C14", "worker-reparse-guard-without-has-dep5", "S", "", R + "report.py", "        if self.has_dep5 and not self.reuse_dep5:\n", "        if not self.reuse_dep5:\n")
+V("C17", "worker-reparse-guard-without-has-dep5", "S", "", R + "report.py", "        if self.has_dep5 and not self.reuse_dep5:\n", "        if not self.reuse_dep5:\n")
+V("C14", "worker-does-not-store-dep5", "F", "R2", R + "report.py", "                self.project.global_licensing = self.reuse_dep5\n", "                pass\n")
+V("C17", "matcher-emits-nonslash-run-after-globstar", "S", "", GLP, '                    if prev_char == "*" and not globstar:\n                        blocks.append(r"[^/]*")\n                    blocks.append(re.escape(char))', '                    if prev_char == "*":\n                        blocks.append(r"[^/]*")\n                    blocks.append(re.escape(char))')
